@@ -546,6 +546,7 @@ func checkC17(c *Ctx) {
 	R.Assumptions = []string{"unicode/utf8.DecodeRune / FullRune contracts", "os.File.Read returns 0 bytes only at end of file"}
 	u := c.Core()
 	u.buildSSA()
+	ruleBomOnlyFirst(c, u, "C17.bom")
 	f := u.ssaFunc("pkg/io", "readRune")
 	if f == nil {
 		R.lost("C17.decode", "pkg/io.readRune")
